@@ -519,6 +519,12 @@ func createProxyTLSFromBackends(backends []dataplane.Backend) *http.ProxySSLVeri
 		return nil
 	}
 	for _, b := range backends {
+		// An invalid backend is served by the invalid-backend-ref upstream. Its TLS settings must not be used:
+		// the CA bundle of an invalid backend is not written to disk, so referencing it would break the reload.
+		if !b.Valid {
+			continue
+		}
+
 		proxyVerify := createProxySSLVerify(b.VerifyTLS)
 		if proxyVerify != nil {
 			// If any backend has a backend TLS policy defined, then we use that for the proxy SSL verification.
